@@ -54,14 +54,22 @@ def _lib_items(obj, t):
     return list(obj)
 
 
+class Refused(Exception):
+    pass
+
+
 def _sizes(sp, opts, acc, tag):
     t, fmt = sp["type"], sp["format"]
+    may_refuse = opts.get("may_refuse")
+    opts = {k: v for k, v in opts.items() if k != "may_refuse"}
     try:
         obj = specs.build(sp, **opts)
         acc.n["transitions"] += 1
         declared = obj.nBytes
         data = specs.lib_encode(obj)
     except Exception as e:
+        if may_refuse:
+            raise Refused()
         raise shape.viol(PROP, sp, "valid-block-refused", tag, f"{type(e).__name__}: {e}", type(e).__name__)
     if int(declared) != len(data):
         raise shape.viol(PROP, sp, "nBytes!=written", tag, f"declares {declared}, writes {len(data)}")
@@ -81,6 +89,70 @@ def _sizes(sp, opts, acc, tag):
 
 
 def check_one(sp, opts, acc, tag=""):
+    try:
+        return _check_one(sp, opts, acc, tag)
+    except Refused:
+        return "refused (edge of the domain)"
+
+
+def edge_inputs(t, tier):
+    """Inputs at the edge of what the library accepts.  Whether it accepts them is not this property's
+    business; *if* it does, the three sizes must agree like for any other block.
+    * text of exactly the field's width, one more, one less (every labelled kind, first / last item);
+    * +-inf as first component of a frame (the library stores no sample for such a frame), +-inf elsewhere,
+      a frame whose first component is NaN while others are numbers (run-length coded kinds)."""
+    import numpy as np
+
+    from .. import gen
+
+    may = {"may_refuse": True}
+    if t in gen.RLE_TYPES:
+        w = gen._width(t)
+        for v in gen.F32X[:2]:
+            for fr in (0, 1, 2):
+                for q in sorted({0, min(1, w - 1), w - 1}):
+                    for items in (1, 2):
+                        sp = gen.rle_block(t, 3, [(True, True, True)] * items, chans=[5, 1])
+                        gen._poke(sp, t, fr * w + q, v)
+                        yield ("edge-inf", sp, may)
+        if w > 1:
+            for fr in (0, 1, 2):
+                sp = gen.rle_block(t, 3, [(True, True, True), (True, False, True)], chans=[5, 1])
+                gen._poke(sp, t, fr * w, np.float32("nan"))
+                yield ("edge-halfmissing", sp, may)
+    for width, mk in _text_fields(t):
+        for n in (width - 2, width - 1, width, width + 1):
+            for where in (0, 1):
+                yield ("edge-text", mk("q" * n, where), may)
+            yield ("edge-text", mk("é" * n, 0), may)
+
+
+def _text_fields(t):
+    from .. import gen as g
+
+    def two(lab, where, a="k0", b="k1"):
+        labs = [a, b]
+        labs[where] = lab
+        return labs
+
+    if t == R.T_DATA3D:
+        yield 256, lambda lab, wh: g.rle_block(t, 2, [(True, False), (False, True)], labels=two(lab, wh))
+    elif t in (R.T_EMG, R.T_FORCE3D):
+        yield 256, lambda lab, wh: g.rle_block(t, 2, [(True, False), (False, True)], labels=two(lab, wh))
+    elif t == R.T_PLATCAL:
+        yield 256, lambda lab, wh: g.platcal([(3, g.mk_platinfo(two(lab, wh)[0], 0)), (1, g.mk_platinfo(two(lab, wh)[1], 1))])
+    elif t == R.T_EVENTS:
+        yield 256, lambda lab, wh: g.events([g.mk_event(two(lab, wh)[0], 1, 2, 0), g.mk_event(two(lab, wh)[1], 0, 1, 1)])
+    elif t == R.T_OPT:
+        for field in ("lens", "ctype", "name"):
+            def mk(lab, wh, field=field):
+                chans = [g.mk_chan(0), g.mk_chan(1)]
+                chans[wh][field] = lab
+                return g.optical(chans)
+            yield 32, mk
+
+
+def _check_one(sp, opts, acc, tag=""):
     k = _items_key(sp)
     nitems = len(sp[k]) if k else 0
     if sp["type"] == R.T_DATA2D:
@@ -143,7 +215,7 @@ def capture_shard(_):
 def _shard(shard):
     if shard == "capture":
         return capture_shard(shard)
-    return shape.run_shard(shard, _shard.tier, check_one, PROP)
+    return shape.run_shard(shard, _shard.tier, check_one, PROP, extra_inputs=edge_inputs)
 
 
 def run(tier):
@@ -162,4 +234,4 @@ def replay(w):
             if v["witness"] == w:
                 return core.Violation(v["clause"], v["sig"], w, v["detail"])
         return None
-    return shape.replay(w, check_one)
+    return shape.replay(w, check_one, extra_inputs=edge_inputs)
